@@ -22,13 +22,15 @@ LEVEL_NOTE = ("theorems range over projects as token lists (original line, norma
 
 def py_stmt(i: int) -> str:
     forms = ["value_{i} = compute(alpha, {i})", "result_{i} = transform(value, beta_{i})", "store.append(item_{i})", "total = total + weight_{i}",
-             "handle(event_{i}, context)", "name_{i} = str(owner) + suffix", "count_{i} = len(items) + {i}", "emit(signal_{i})"]
+             "handle(event_{i}, context)", "name_{i} = str(owner) + suffix", "count_{i} = len(items) + {i}", "emit(signal_{i})",
+             # statements that merely *begin* like an import / export line
+             "from_addr_{i} = lookup(total)", "imported_{i} = value + {i}", "importer.load(item_{i})", "exported_{i} = str(total)"]
     return forms[i % len(forms)].format(i=i)
 
 
 def ts_stmt(i: int) -> str:
     forms = ["const value{i} = compute(alpha, {i});", "result{i} = transform(value, beta{i});", "store.push(item{i});", "total = total + weight{i};",
-             "handle(event{i}, context);", "emit(signal{i});"]
+             "handle(event{i}, context);", "emit(signal{i});", "exports.total{i} = total;", "importScripts(url{i});", "fromEvent(node, name{i});", "exportAll(store, {i});"]
     return forms[i % len(forms)].format(i=i)
 
 
@@ -126,6 +128,10 @@ def gen_project(rng, lang_mix=True):
             else:
                 out += closers
                 out.append((None, ""))
+        if lang == "py" and rng.random() < 0.12:
+            # a file the running interpreter cannot parse (a Python 2 print statement at its very end): duplicate-code detection
+            # works on text, so the runs of such a file count like any other
+            out.append(('print "legacy %d"' % fi, None))
         lines, toks = [], []
         for text, rendered in out:
             if rendered is None:
